@@ -695,6 +695,7 @@ pub fn mode_iters(a: &Args) -> i32 {
     let max_random_size = a.u("max_size", 300) as usize;
     let recipes_per_n = a.u("recipes", 3);
     let hold = a.u("hold", 0) == 1;
+    let noleak = a.u("noleak", 0) == 1;
     let do_adaptors = a.u("adaptors", 1) == 1;
     let hasher = a.s("hasher", "fixed");
     let whichs: Vec<Which> = {
@@ -745,7 +746,7 @@ pub fn mode_iters(a: &Args) -> i32 {
                         }
                         let is_mut = matches!(w, Which::IterMut | Which::IterMutRef);
                         let writes: Vec<Option<i64>> = if is_mut { (0..s.len()).map(|j| if (j + rix as usize) % 2 == 0 { Some(rng.range(0, 4)) } else { None }).collect() } else { vec![] };
-                        let leak = (w == Which::Drain || is_mut) && (s.len() + rix as usize) % 5 == 0;
+                        let leak = !noleak && (w == Which::Drain || is_mut) && (s.len() + rix as usize) % 5 == 0;
                         let after = if w == Which::Drain && s.len() % 4 == 0 { gen_after(&mut rng, 10) } else { vec![] };
                         let c = Case { kind, which: w, recipe: rec.clone(), script: s.clone(), writes, hold: hold || (is_mut && s.len() % 2 == 1), leak, after };
                         run(c, &mut cn, &mut sink, &mut journal, &mut samples);
@@ -771,7 +772,7 @@ pub fn mode_iters(a: &Args) -> i32 {
         let script: String = (0..len).map(|_| if rng.below(4) < bias { 'B' } else { 'N' }).collect();
         let is_mut = matches!(w, Which::IterMut | Which::IterMutRef);
         let writes: Vec<Option<i64>> = if is_mut { (0..len).map(|_| if rng.chance(1, 2) { Some(rng.range(0, 1000)) } else { None }).collect() } else { vec![] };
-        let leak = (w == Which::Drain || is_mut) && rng.chance(1, 6);
+        let leak = !noleak && (w == Which::Drain || is_mut) && rng.chance(1, 6);
         let after = if w == Which::Drain { gen_after(&mut rng, 12) } else { vec![] };
         let c = Case { kind, which: w, recipe: rec, script, writes, hold: hold || rng.chance(1, 2), leak, after };
         run(c, &mut cn, &mut sink, &mut journal, &mut samples);
